@@ -27,7 +27,7 @@ LEVEL_TEXT = ("Exploration of request histories: a grid of single requests of ev
 LEVEL_NOTE = ("trusts pvf/ref/ctlbytes.py (wire layouts) and pvf/ref/swshadow.py (flow-table, port and counter semantics for plain "
               "Ethernet frames and output actions); reply content is only judged where OF 1.0 fixes it and only when no un-barriered "
               "state change precedes the probe")
-RULE = ("a case is (ports 1..4, max_buffers, miss_send_len, segment sizes, list of ops); an op is one controller-to-switch message "
+RULE = ("a case is (max_buffers, miss_send_len, segment sizes, list of ops) for a switch with 3 ports; an op is one controller-to-switch message "
         "(hello, echo request/reply, vendor, features, get-config, set-config, barrier, port-mod, flow-mod, packet-out, stats request of "
         "the 7 types or an unknown one, queue-get-config, unknown message type) with an arbitrary xid and a valid or invalid body, or a "
         "frame arrival; a case is non-trivial when it uses at least 3 different message types and contains an invalid request (one for "
@@ -1230,6 +1230,6 @@ def _strategy(tier):
 def plan(tier):
   if tier == "quick":
     return [Enum("request-grid", lambda: _enum("quick"), shards=16),
-            Hyp("histories", lambda: _strategy(tier), examples=4000, shards=16)]
+            Hyp("histories", lambda: _strategy(tier), examples=3200, shards=16)]
   return [Enum("request-grid", lambda: _enum("thorough"), shards=16),
-          Hyp("histories", lambda: _strategy(tier), examples=100000, shards=16)]
+          Hyp("histories", lambda: _strategy(tier), examples=240000, shards=16)]
